@@ -84,9 +84,18 @@ class Ctx:
     def guard_formulas(self, n):
         """list of formulas whose conjunction is the condition under which n executes."""
         out = []
-        for pol, kind, g in self.b.guards(n):
+        for pol, kind, g in self.b.guards(n, nested=True):
             if kind == "cond":
                 f = self.formula(g)
+            elif kind == "notarm":
+                m, i = g
+                f = ("atom", "is(%s|%s)" % (self.canon(m["scrut"]), ",".join(sorted(pat_variants(m["arms"][i]["pat"])))))
+            elif kind == "notall":
+                # path to a nested `return`: an opaque conjunction (negated by pol == False)
+                parts = []
+                for p2, k2, g2 in g:
+                    parts.append(("" if p2 else "!") + (self.canon(g2) if k2 == "cond" else k2))
+                f = ("atom", "path(" + " && ".join(parts) + ")")
             elif kind == "arm":
                 m, i = g
                 vs = pat_variants(m["arms"][i]["pat"])
